@@ -168,6 +168,7 @@ end compile
 structure Its (α : Type) where
   b : List (List α)
   a : List (List α)
+  deriving DecidableEq, Repr
 
 /-- `iter(self.numpoly[idx])` / `iter(self.denpoly[idx])` -/
 def itsOf (b as : List (Coef α)) : Its α := ⟨b.map Coef.items, as.map Coef.items⟩
